@@ -12,6 +12,7 @@ import (
 	corev1 "k8s.io/api/core/v1"
 	netv1 "k8s.io/api/networking/v1"
 	gatewayv1beta1 "sigs.k8s.io/gateway-api/apis/v1beta1"
+	apierrors "k8s.io/apimachinery/pkg/api/errors"
 	metav1 "k8s.io/apimachinery/pkg/apis/meta/v1"
 	"k8s.io/apimachinery/pkg/apis/meta/v1/unstructured"
 	"k8s.io/apimachinery/pkg/util/intstr"
@@ -41,6 +42,7 @@ type Scenario struct {
 	ForeignBackend bool  `json:"foreignBackend,omitempty"` // gateway: the stable rule also carries a backend the rollout does not own
 	HeaderRegex bool     `json:"headerRegex,omitempty"`
 	HashCompat bool      `json:"hashCompat"`
+	user       *User
 }
 
 type StepSpec struct {
@@ -57,6 +59,11 @@ type UserEvent struct {
 	Arg     int    `json:"arg"`
 	After   string `json:"after,omitempty"` // follow-up: fires Arg seconds after the named earlier event
 	Done    bool   `json:"-"`
+}
+
+// owns: the object belongs to this scenario (same namespace, its name is the scenario name or derived from it).
+func (sc *Scenario) owns(k ObjKey) bool {
+	return k.NS == sc.NS && (k.Name == sc.Name || strings.HasPrefix(k.Name, sc.Name+"-"))
 }
 
 func ios(s string) intstr.IntOrString {
@@ -224,7 +231,7 @@ func (sc *Scenario) buildRollout() *v1beta1.Rollout {
 }
 
 // setupCluster creates the pre-existing cluster state and lets the environment converge.
-func (s *Sim) setupCluster(sc *Scenario) {
+func (s *Sim) setupCluster(sc *Scenario, first bool) {
 	ctx := context.Background()
 	h := s.NewHandle("setup", nil, false)
 	must := func(err error) {
@@ -232,10 +239,14 @@ func (s *Sim) setupCluster(sc *Scenario) {
 			panic(fmt.Sprintf("ksim setup: %v", err))
 		}
 	}
-	must(h.Create(ctx, loadWebhookConfig()))
+	if first {
+		must(h.Create(ctx, loadWebhookConfig()))
+	}
 	must(h.Create(ctx, sc.buildWorkload()))
 	for _, o := range sc.buildNetwork() {
-		must(h.Create(ctx, o))
+		if err := h.Create(ctx, o); err != nil && !apierrors.IsAlreadyExists(err) {
+			must(err)
+		}
 	}
 }
 
